@@ -17,6 +17,8 @@ func main() {
 		err = genVals(os.Args[2], os.Args[3])
 	case "tables":
 		err = genTables(os.Args[2], os.Args[3])
+	case "globals":
+		err = genGlobals(os.Args[2], os.Args[3])
 	default:
 		err = fmt.Errorf("unknown generator %s", os.Args[1])
 	}
